@@ -219,7 +219,8 @@ property's header predicate evaluated on the written file (`headerFlags`: vertex
 Σ count × stride, index sections 16-byte padded and holding the indices, non-empty sections after
 the runtime block and pairwise disjoint, every section inside the file) is `allOk`.  No bound on
 sizes or history length; nothing about the intermediate states is assumed beyond that the calls
-return.
+return.  (The empty history is `c07_write_parse`; there the padding flag need not hold — an unedited
+file keeps whatever index padding it came with.)
 
 `_partial`: (1) a LOD in use without meshes is excluded (`update_headers` gives it a 16-byte index
 section that `Spec.encodeMdl` cannot express); (2) that the edit calls return (no panic of the
